@@ -236,6 +236,35 @@ func runC14(c *Ctx) {
 	}
 	c.MinInstances("C14.R7 ID-index writes", nIdx, 2)
 
+	// ---- R9b an eviction declines only for want of candidates. Add inserts after the eviction
+	// step whatever it answered (a full pool always has a candidate, so it cannot fail); an
+	// eviction that may also decline for another reason (the candidate pays more than the
+	// newcomer) lets the pool grow past its limit.
+	for _, k := range []string{"pkg/txpool.(*TransactionPool).evictUnprocessable", "pkg/txpool.(*TransactionPool).evictProcessable"} {
+		ev := c.Anchor(k)
+		if ev == nil {
+			continue
+		}
+		ef := factsOf(ev)
+		for _, r := range Returns(ev) {
+			if len(r.Results) != 1 {
+				continue
+			}
+			kc, isC := r.Results[0].(*ssa.Const)
+			if !isC || kc.Value == nil || kc.Value.ExactString() != "false" {
+				continue
+			}
+			rf := ef
+			if r.Parent() != ev {
+				rf = factsOf(r.Parent())
+			}
+			ok := rf.EveryPathHas(r.Block(), func(f Fact) bool {
+				return f.IsCmp && f.Entails(CmpSpec{A: Matcher{"len(candidates)", func(t *Term) bool { return t.Op == "call" && t.Sym == "builtin:len" }}, NoB: true, Rel: LE, D: 0})
+			})
+			c.Require("C14.R9 eviction-declines-only-when-empty", FuncKey(ev)+": return false", p.InstrPos(r), "the eviction answers false only where it has no candidate at all", ok, "")
+		}
+	}
+
 	// ---- R7b the converse: a removal from a sender list by nonce is the removal of a pooled
 	// transaction — it happens only where the ID-index lookup of that very transaction
 	// succeeded (under the same lock), and the nonce removed is the one of the entry found.
